@@ -588,6 +588,129 @@ def mode_controller_set(pid):
     return c
 
 
+BONUS = "mpf/modes/bonus/code/bonus.py"
+SCOREQ = "mpf/devices/score_queue.py"
+
+
+def scoring_set():
+    """two places where points are accumulated outside the player object before they reach it: the bonus mode's subtotal
+    (must start from zero for every bonus run, whoever was up before) and the score queue of solid-state games (the ball
+    must not end - and the next player's turn start - while an entry is still being rung up)"""
+    C = ContractSet("C11s", "points in flight reach the player they belong to")
+    C.strings = False
+    C.cls("Mode", fields={})
+    C.cls("EventManager", fields={})
+    C.ext("EventManager.post", model=lambda I, env, a, k: (emit(I, "post", event=a[0]), NONE)[1],
+          trusted_reason="event posting (C01)")
+    common.declare_delay_client(C)
+    C.cls("GameI", fields=dict(tilted=Bool))
+    C.cls("Bonus", file=BONUS, bases=["Mode"], fields=dict(
+        bonus_score=Opt(Int), bonus_entries=Seq(Opaque("Entry")), bonus_iterator=Opaque("Any"), display_delay=Int,
+        settings=Rec(display_delay_ms=Int, hurry_up_event=Opt(Str), end_bonus_event=Opt(Str)), delay=common.DelayMgr,
+        machine=ObjS("MachineController", game=Opt(ObjS("GameI")), events=ObjS("EventManager"))))
+    C.globals["iter"] = VFn("model", model=lambda I, a, k: VOpaque("Any", z3.Const(I.fresh_name("iterator"), usort("Any"))))
+    for m_ in ("stop", "_reset_all_scores", "add_mode_event_handler"):
+        C.ext("Bonus." + m_, model=(lambda nm: lambda I, env, a, k: (emit(I, nm), NONE)[1])(m_),
+              trusted_reason="Mode.stop / bonus entry reset / mode handler registration (C07)")
+    C.helpers["n_stop"] = lambda I: VInt(len(events_named(I, "stop")))
+    C.trace_helpers = {"n_stop"}
+    C.fn("Bonus.mode_start", params=dict(kwargs=Opaque("Kwargs")),
+         requires=[("bonus entries are configured", "len(self.bonus_entries) > 0")],
+         ensures=[("BN1: every bonus run starts its subtotal from ZERO - whatever an earlier run (of this or another "
+                   "player, possibly aborted before its payout) left behind",
+                   "implies(n_stop() == 0, self.bonus_score == 0)")],
+         modifies=["self.bonus_score", "self.bonus_iterator", "self.display_delay", "self.delay.pending.**"],
+         raises={}, skip_frame=True)
+
+    # ---- score queue
+    C.cls("SystemWideDevice", fields={})
+    C.cls("AsyncEvent", fields=dict(flag=Bool))
+    C.ext("AsyncEvent.set", model=lambda I, env, a, k: (I.write_field(env["self"].ref, "flag", VBool(True)), NONE)[1],
+          trusted_reason="asyncio.Event")
+    C.cls("AsyncQueue", fields=dict(n=Int))
+
+    def rely_scores(I):
+        """while the task is suspended handlers may call score(): more entries are queued and the empty flag is cleared
+        (never set: only this task sets it)"""
+        saved = I.modified
+        I.modified = set()
+        try:
+            this = I.frames[0].env["self"].ref
+            q = I.force(I.read_field(this, "_score_queue")).ref
+            n0 = I.force(I.read_field(q, "n")).t
+            if I.ctx.fork(2) == 1:
+                I.havoc_field(q, "n")
+                I.ctx.assume(I.force(I.read_field(q, "n")).t > n0)
+                fl = I.force(I.read_field(this, "_score_queue_empty")).ref
+                I.write_field(fl, "flag", VBool(False))
+        finally:
+            I.rely_modified |= I.modified
+            I.modified = saved
+
+    def q_get(I, env, a, k):
+        rely_scores(I)
+        n = I.force(I.read_field(env["self"].ref, "n")).t
+        # get() returns once an entry is there: if the queue was empty, score() has queued one (and cleared the flag)
+        if I.ctx.branch(n <= 0):
+            this = I.frames[0].env["self"].ref
+            I.write_field(I.force(I.read_field(this, "_score_queue_empty")).ref, "flag", VBool(False))
+            I.write_field(env["self"].ref, "n", VInt(z3.IntVal(0)))
+        else:
+            I.write_field(env["self"].ref, "n", VInt(n - 1))
+        v = z3.Int(I.fresh_name("queued_score"))
+        return VInt(v)
+    C.ext("AsyncQueue.get", model=q_get, trusted_reason="asyncio.Queue.get (A-ASYNCIO): FIFO, suspends while empty")
+    C.ext("AsyncQueue.empty", model=lambda I, env, a, k: VBool(I.force(I.read_field(env["self"].ref, "n")).t == 0),
+          trusted_reason="asyncio.Queue.empty")
+    C.globals["asyncio"] = VFn("module", name="asyncio")
+    C.globals["asyncio.sleep"] = VFn("model", model=lambda I, a, k: (rely_scores(I), NONE)[1])
+    C.globals["math"] = VFn("module", name="math")
+    LOG10 = z3.Function("py_log10", z3.IntSort(), z3.RealSort())
+    C.globals["math.log10"] = VFn("model", model=lambda I, a, k: VReal(LOG10(I.num(a[0])[1])))
+    def mfloor(I, a, k):
+        r = z3.ToInt(I.num(a[0])[1])
+        # scores below 10 ** len(chimes): a larger score indexes the chime list out of range (IndexError in the real
+        # code, `len(chimes) >= digit_pos` instead of `>`): recorded as a candidate defect, outside this property
+        I.ctx.assume(z3.And(r >= 0, r < 2))
+        return VInt(r)
+    C.globals["math.floor"] = VFn("model", model=mfloor)
+    POW10 = z3.Function("py_pow10", z3.IntSort(), z3.IntSort())
+
+    def mpow(I, a, k):
+        e = I.num(a[1])[1]
+        r = POW10(e)
+        I.ctx.assume(r >= 1)
+        return VReal(z3.ToReal(r))
+    C.globals["math.pow"] = VFn("model", model=mpow)
+    C.cls("PlayerI", fields={})
+    C.ext("PlayerI.__getitem__", model=lambda I, env, a, k: VInt(z3.Int(I.fresh_name("player_score"))),
+          trusted_reason="player variable (C11 main set)")
+    C.ext("PlayerI.__setitem__", model=lambda I, env, a, k: (emit(I, "scored", value=a[1]), NONE)[1],
+          trusted_reason="player variable (C11 main set)")
+    C.cls("ChimeI", fields={})
+    C.ext("ChimeI.pulse", model=common.noop, trusted_reason="chime coil (C08)")
+    C.cls("GameQ", fields=dict(player=ObjS("PlayerI")))
+    C.cls("ScoreQueue", file=SCOREQ, bases=["SystemWideDevice"], fields=dict(
+        _score_queue=ObjS("AsyncQueue"), _score_queue_empty=ObjS("AsyncEvent"), name=Str,
+        config=Rec(chimes=Init(lambda I, n: I.new_list([NONE, I.fresh(ObjS("ChimeI"), n + "[1]")], n)), delay=Real),
+        machine=ObjS("MachineController", game=ObjS("GameQ"))))
+    QINV = ("SQ1: the empty flag - which lets the ball end and the next player's turn begin - is set only while nothing is "
+            "queued and nothing is being rung up", "implies(self._score_queue_empty.flag, self._score_queue.n == 0)")
+    C.fn("ScoreQueue._handle_score_queue",
+         requires=[QINV, ("queue size is not negative", "self._score_queue.n >= 0")],
+         loops_by_text={
+             "True": LoopSpec(invariant=[QINV, ("queue size is not negative", "self._score_queue.n >= 0")],
+                              modifies=["self._score_queue.n", "self._score_queue_empty.flag"]),
+             "score > 0": LoopSpec(invariant=[("while an entry is rung up the flag stays clear",
+                                               "not self._score_queue_empty.flag"),
+                                              ("queue size is not negative", "self._score_queue.n >= 0")],
+                                   modifies=["self._score_queue.n", "self._score_queue_empty.flag"])},
+         modifies=["self._score_queue.n", "self._score_queue_empty.flag"], raises={},
+         bounded="BOUNDED: two chimes; scores below 100 (a score of 10 ** len(chimes) or more raises IndexError in the real "
+                 "code - candidate defect, DESIGN 9.5)")
+    return C
+
+
 def build_extra():
     C2 = ContractSet("C11", "persisted enable flags of mode devices (EnableDisableMixin)")
     C2.strings = True
@@ -601,4 +724,4 @@ def build_extra():
     C4 = C13.build()
     C4.pid = "C11t"
     C4.only_verify = ["Timer.stop", "Timer.device_removed_from_mode"]
-    return [C2, C3, C4]
+    return [C2, C3, C4, scoring_set()]
